@@ -248,3 +248,103 @@ def par_reduce(cx):
                 return "mean off"
 
         cx.check("randn threaded: shape/dtype/seed determinism/coverage", dict(d=d, T=T, dtype=dt), t, nontrivial=d > 0)
+
+
+def _term_operator(qo, n, kind, rng):
+    """an operator built from terms on n sites that conserves the symmetry `kind` (random real coefficients)"""
+    H = qo.SparseOperatorBuilder(hilbert_space=qo.HilbertSpace(list(range(n))))
+    c = lambda: float(np.round(rng.normal(), 3)) or 0.5  # noqa: E731
+    for i in range(n):
+        H.add_term(c(), ("z", i))
+    if kind == "U1U1":
+        na = (n + 1) // 2
+        blocks = [list(range(na)), list(range(na, n))]
+        for blk in blocks:
+            for a, b in zip(blk, blk[1:]):
+                H.add_term(c(), ("+", a), ("-", b))
+                H.add_term(c(), ("-", a), ("+", b))
+        if n > 1:
+            H.add_term(c(), ("z", 0), ("z", n - 1))
+        return H
+    for a in range(n):
+        b = (a + 1) % n
+        if a == b:
+            continue
+        H.add_term(c(), ("z", a), ("z", b))
+        if kind in ("none", "Z2"):
+            H.add_term(c(), ("x", a), ("x", b))
+            H.add_term(c(), ("y", a), ("y", b))
+        else:
+            H.add_term(c(), ("+", a), ("-", b))
+            H.add_term(c(), ("-", a), ("+", b))
+    if kind == "none":
+        H.add_term(c(), ("x", 0))
+    return H
+
+
+@driver("C16", "operator-workers", chunks=4, timeout=240,
+        bound="operators built from terms on 1..6 sites (quick 1..5), symmetries none / Z2 (both parities) / U1 (every filling) / "
+              "U1U1 (every pair of fillings of two blocks); worker counts True,1,2,3,5,17 (also more workers than basis "
+              "states): build_coo_data / build_sparse_matrix / matvec / aslinearoperator(parallel=k) == the same call "
+              "with parallel=False (and matvec == matrix @ x)")
+def operator_workers(cx):
+    import quimb.operator as qo
+
+    rng = cx.rng
+    nmax = 5 if cx.quick else 6
+    for n in range(1, nmax + 1):
+        sectors = [("none", {})]
+        sectors += [("Z2", dict(sector=p, symmetry="Z2")) for p in (0, 1)]
+        sectors += [("U1", dict(sector=k, symmetry="U1")) for k in range(n + 1)]
+        if n >= 2:
+            na = (n + 1) // 2
+            sectors += [("U1U1", dict(sector=((na, ka), (n - na, kb)), symmetry="U1U1"))
+                        for ka in range(na + 1) for kb in range(n - na + 1)]
+        for kind, kw in sectors:
+            seed = int(rng.integers(1 << 30))
+            for par in (True, 1, 2, 3, 5, 17):
+                if not cx.mine():
+                    continue
+                if cx.out_of_time():
+                    cx.inconclusive.append("operator-workers: time budget exhausted")
+                    return
+
+                def t(n=n, kind=kind, kw=kw, par=par, seed=seed):
+                    r = np.random.default_rng(seed)
+                    H = _term_operator(qo, n, kind, r)
+                    A = H.build_sparse_matrix(parallel=False, **kw)
+                    d = A.shape[0]
+                    B = H.build_sparse_matrix(parallel=par, **kw)
+                    if B.shape != A.shape:
+                        return f"shape {B.shape} != serial {A.shape}"
+                    A, B = A.toarray(), B.toarray()
+                    if not np.allclose(A, B, rtol=1e-12, atol=1e-12):
+                        bad = np.flatnonzero(np.abs(A - B).max(axis=0) > 1e-12)
+                        return (f"build_sparse_matrix(parallel={par}) differs from serial in {bad.size} of {d} columns "
+                                f"(first {bad[0]}), max abs err {np.abs(A - B).max():.3g}")
+                    data, rows, cols, dd = H.build_coo_data(parallel=par, **kw)
+                    if dd != d or not (len(data) == len(rows) == len(cols)):
+                        return f"build_coo_data: d={dd} lens {len(data)},{len(rows)},{len(cols)}"
+                    C = np.zeros((d, d), dtype=A.dtype)
+                    np.add.at(C, (rows, cols), data)
+                    if not np.allclose(A, C, rtol=1e-12, atol=1e-12):
+                        return f"build_coo_data(parallel={par}) sums to a different matrix, max abs err {np.abs(A - C).max():.3g}"
+                    x = r.normal(size=d).astype(A.dtype)  # vector of the operator's own dtype (mixed dtypes: C19)
+                    y0 = H.matvec(x, parallel=False, **kw)
+                    y = H.matvec(x, parallel=par, **kw)
+                    if y.shape != y0.shape:
+                        return f"matvec shape {y.shape} != {y0.shape}"
+                    if not np.allclose(y, y0, rtol=1e-12, atol=1e-12):
+                        return f"matvec(parallel={par}) differs from serial, max abs err {np.abs(y - y0).max():.3g}"
+                    if not np.allclose(y0, A @ x, rtol=1e-10, atol=1e-10):
+                        return f"serial matvec differs from matrix @ x, max abs err {np.abs(y0 - A @ x).max():.3g}"
+                    lo = H.aslinearoperator(parallel=par, **kw)
+                    z = lo @ x
+                    if z.shape != y0.shape or not np.allclose(z, y0, rtol=1e-12, atol=1e-12):
+                        return f"aslinearoperator(parallel={par}) @ x differs from serial matvec"
+                    return None
+
+                cx.check("operator from terms: build_coo_data / build_sparse_matrix / matvec / aslinearoperator with "
+                         "parallel=k == the serial call",
+                         dict(n=n, symmetry=kind, sector=str(kw.get("sector")), parallel=str(par)), t,
+                         nontrivial=n > 1)
